@@ -870,6 +870,7 @@ class Translator:
         """`{ #[cfg(feature = F)] {X} #[cfg(not(feature = F))] {Y} }` -> ('cfgif', F, X, Y)"""
         if b[0] != 'block': return b
         parts = [s[1] for s in b[1] if s[0] == 'expr'] + ([b[2]] if b[2] is not None else [])
+        if any(p[0] == 'cfg' and p[1][0] != 'feature' for p in parts): raise Unsupported('conditional compilation the translator does not model: %s' % [p[1] for p in parts if p[0] == 'cfg'][0][-1])
         if len(parts) == 2 and len(b[1]) + (1 if b[2] is not None else 0) == 2 and all(p[0] == 'cfg' for p in parts):
             (k1, f1, p1), (k2, f2, p2) = parts[0][1], parts[1][1]
             if k1 == 'feature' and f1 == f2 and p1 != p2:
@@ -1900,6 +1901,7 @@ class Translator:
     def translate_fn(self, fi):
         ast = fi.ast
         if fi.meta.get('cfg') == ('test',): raise Unsupported('test code')
+        if fi.meta.get('cfg') and fi.meta['cfg'][0] == 'other': raise Unsupported('conditional compilation the translator does not model: ' + fi.meta['cfg'][1])
         ctx0 = Ctx(self, fi); self.setup_generics(ctx0)
         params = []   # (lean name, lean type)
         inouts = []
